@@ -1,4 +1,4 @@
-import VlsModel.Lemmas.KVVRun
+import VlsModel.Lemmas.KVVCloud
 /-
 C16 — The key-version-value stores never roll back and agree with each other.
 
@@ -264,13 +264,13 @@ theorem C16_cloud_ryw (c : Cloud) (lg : Tab) (hp : c.poisoned = false) (hl : c.l
     unfold Cloud.putV
     simp only [hp, hl, Bool.false_eq_true, if_false]
     cases hloc : lookup c.loc k with
-    | none => simp [Cloud.get, hp, lookup_insert_self]
+    | none => simp [Cloud.get, lookup_insert_self]
     | some r0 =>
       obtain ⟨v0, x0⟩ := r0
       have := hv v0 x0 hloc
       have h1 : ¬ v < v0 := by omega
       have h2 : ¬ v = v0 := by omega
-      simp [Cloud.get, hp, h1, h2, lookup_insert_self]
+      simp [Cloud.get, h1, h2, lookup_insert_self]
   refine ⟨fun _ hv => hadv v hv, ?_, ?_⟩
   · intro hok
     unfold Cloud.put at hok ⊢
@@ -359,6 +359,34 @@ theorem C16_cloud_commit_exact (c c1 : Cloud) (m : Tab) (hprep : Cloud.prepare c
     subst this
     exact ⟨rfl, by rw [k1]; simp [Mem.batch, insertAll]⟩
 
+/-- the log invariant (every logged entry is above the committed record of its key) holds along every
+    request list from the empty store -/
+theorem cloud_run_inv {c : Cloud} (h : Cloud.Inv c) (ops : List Op) : Cloud.Inv (runWith Cloud.step c ops).1 :=
+  (run_induct Cloud.step Cloud.Inv (fun _ _ => True) (fun _ => trivial) (fun _ _ _ _ _ => trivial)
+    (fun _ op hs => ⟨Cloud.step_inv hs op, trivial⟩) ops c h).1
+
+/-- **C16_cloud_commit_accepted**: in every state reachable from the empty store (more generally: every
+    state satisfying the log invariant), a `commit` directly after a `prepare` that reported `m` is
+    accepted by the local store and applies exactly `m`, in order. -/
+theorem C16_cloud_commit_accepted (c c1 : Cloud) (m : Tab) (h : Cloud.Inv c)
+    (hprep : Cloud.prepare c = (c1, some m)) :
+    (Cloud.commit c1).2 = .ok ∧ (Cloud.commit c1).1.loc = insertAll c.loc m := by
+  obtain ⟨k1, k2, k3, _, _⟩ := C16_cloud_commit_exact c c1 m hprep
+  have hall : m.all (entryOk c.loc) = true := by
+    unfold Cloud.prepare at hprep
+    split at hprep
+    · cases hprep
+    · split at hprep
+      · cases hprep
+      · rename_i lg hlg
+        split at hprep
+        · split at hprep
+          · cases hprep; rfl
+          · cases hprep
+        · cases hprep; exact Cloud.log_ok h hlg
+  have hok : (Cloud.commit c1).2 = .ok := by rw [k2]; simp [Mem.batch, hall]
+  exact ⟨hok, k3 hok⟩
+
 /-! ### non-vacuity -/
 
 /-- the redb invariant holds initially, and a reachable state with content satisfies it -/
@@ -376,6 +404,8 @@ example : (Redb.batch ⟨[(1, (1, [1]))], [(1, 1)]⟩ [(2, (0, [3])), (1, (0, [2
 /-- C16_mem_redb_equal_partial: its hypothesis holds for a non-trivial list with accepted and refused writes -/
 example : ∀ op ∈ [Op.putV 1 1 [1], .batch [(1, (2, [2])), (2, (0, [3]))], .putV 1 1 [9], .reopen, .put 2 [4]],
     Redb.DistinctBatch op := by decide
+
+example : Cloud.Inv (Cloud.empty [7]) := Cloud.inv_empty _
 
 /-- C16_cloud_ryw / commit_exact: a transaction that writes, reads its write, reports and commits it -/
 example :
